@@ -43,6 +43,10 @@ type N struct {
 	Kind  string          `json:"kind"`
 	ID    int             `json:"id"`
 	P     string          `json:"p"`
+	S     string          `json:"s"`
+	From  string          `json:"from"`
+	Ix    int             `json:"ix"`
+	Es    []*N            `json:"es"`
 }
 
 type Case struct {
@@ -232,6 +236,8 @@ func Expr(e *N) string {
 		return "(" + Expr(e.L) + " / " + Expr(e.R) + ")"
 	case "deref":
 		return "*" + e.P
+	case "sl":
+		return fmt.Sprintf("%s[%d]", e.S, e.Ix)
 	case "call":
 		var as []string
 		for _, a := range e.Args {
@@ -411,6 +417,20 @@ func (r *rend) stmt(s *N) {
 			r.ind--
 		}
 		r.line("}")
+	case "mksl":
+		r.line("%s := []int{%s, %s, %s}", s.S, Expr(s.Es[0]), Expr(s.Es[1]), Expr(s.Es[2]))
+		r.line("_ = %s", s.S)
+	case "slshare":
+		r.line("%s := %s", s.S, s.From)
+		r.line("_ = %s", s.S)
+	case "slset":
+		if s.Op == "set" {
+			r.line("%s[%d] = %s", s.S, s.Ix, Expr(s.E))
+		} else {
+			r.line("%s[%d] += %s", s.S, s.Ix, Expr(s.E))
+		}
+	case "printsl":
+		r.line("fmt.Println(\"s\", %s[0], %s[1], %s[2])", s.S, s.S, s.S)
 	case "iswap":
 		r.line("arr[0], arr[1] = arr[1], arr[0]")
 	case "mkptr":
